@@ -1180,11 +1180,24 @@ def run_C16(ctx: Ctx) -> Result:
                 else:
                     res.fail("metamorphic", {**case, "transform": f"comment-before@{ln}", "transformed": t}, o, base,
                              "a comment line before a keyword/step/tag/row line made the document rejected")
+        # a doc string moving as one block: only columns change
+        opens = [ln for ln, k in kind_of_line.items() if k == "DocStringSeparator"]
+        for a_, b_ in zip(opens[0::2], opens[1::2]):
+            if b_ > len(lines):
+                continue
+            for k_ in (2, 5):
+                t = "\n".join(lines[: a_ - 1] + [" " * k_ + x for x in lines[a_ - 1: b_]] + lines[b_:])
+                o, _ = full(t)
+                a2, b2 = strip_loc(o, {"column"}), strip_loc(base, {"column"})
+                if a2 != b2:
+                    res.fail("metamorphic", {**case, "transform": f"indent-docstring-block@{a_}-{b_}+{k_}", "transformed": t}, a2, b2,
+                             f"indenting the doc string block at lines {a_}–{b_} changed more than columns: {first_diff(a2, b2)}")
     # file loading: source_event reads the text unchanged; TokenScanner(path) == text for LF/CRLF documents
     d = os.path.join(ctx.scratch.dir, "files")
     os.makedirs(d, exist_ok=True)
     from gherkin.stream.source_events import source_event
-    for k, src in enumerate(docs[: ctx.n(60, 600)]):
+    bom = ["\ufeffFeature: bom\n  Scenario: s\n    Given a\n", "\ufeff# language: fr\nFonctionnalité: f\n", "\ufeff\nFeature: f\n"]
+    for k, src in enumerate(bom + docs[: ctx.n(60, 600)]):
         p = os.path.join(d, f"f{k}.feature")
         try:
             src.encode("utf8")
